@@ -113,3 +113,5 @@ func fmtErr(err error) string {
 }
 
 var _ = fmt.Sprintf
+
+func jsonUnmarshalString(s string, out any) error { return json.Unmarshal([]byte(s), out) }
